@@ -38,6 +38,9 @@ type EngCfg struct {
 	MaxWBuf  int    `json:"maxwbuf,omitempty"`
 	Network  string `json:"network"` // tcp | unix | udp
 	UDPTimeoutS int `json:"udp_timeout_s,omitempty"`
+	// MaxFiles > 0: nbio.MaxOpenFiles for this run (descriptors at or above it are refused by the
+	// engine: "too many open files"); 0: the simulated kernel's limit, which is never reached
+	MaxFiles int `json:"max_files,omitempty"`
 }
 
 func genEng(r *simrt.Rand) EngCfg {
@@ -175,6 +178,10 @@ func NewWorld(t *testing.T, o *common.Outcome, prop string, cfg EngCfg, kp kerne
 	w.start = time.Now()
 	w.K = kernel.Install(kp)
 	logging.SetLogger(simLogger{w})
+	nbio.MaxOpenFiles = kernel.FDLimit
+	if cfg.MaxFiles > 0 {
+		nbio.MaxOpenFiles = cfg.MaxFiles
+	}
 	conf := nbio.Config{Name: "sim", Network: cfg.Network, NPoller: cfg.NPoller, ReadBufferSize: cfg.ReadBuf,
 		MaxConnReadTimesPerEventLoop: cfg.MaxReads, MaxWriteBufferSize: cfg.MaxWBuf}
 	switch cfg.Network {
